@@ -230,22 +230,32 @@ def evaluate(chk, v, suffixes):
 class _Sub:
     """adapter: record another rule module's obligations under this property's rule id"""
 
-    def __init__(self, chk, rule):
-        self.chk, self.rule = chk, rule
+    def __init__(self, chk, rule, skip=()):
+        self.chk, self.rule, self.skip = chk, rule, set(skip)       # skip: rule ids of the source module that do not bear on this property
 
     def require(self, cond, rule, key, **kw):
+        if rule in self.skip:
+            return cond
         return self.chk.require(cond, self.rule, key, **kw)
 
     def refuted(self, rule, key, **kw):
+        if rule in self.skip:
+            return None
         return self.chk.refuted(self.rule, key, **kw)
 
     def proved(self, rule, key, **kw):
+        if rule in self.skip:
+            return None
         return self.chk.proved(self.rule, key, **kw)
 
     def assumed(self, rule, key, **kw):
+        if rule in self.skip:
+            return None
         return self.chk.assumed(self.rule, key, **kw)
 
     def ob(self, rule, key, status, **kw):
+        if rule in self.skip:
+            return None
         return self.chk.ob(self.rule, key, status, **kw)
 
     def broken(self, msg):
